@@ -2453,18 +2453,21 @@ func unmarshalUDT(info TypeInfo, data []byte, value interface{}) error {
 
 	udt := info.(UDTTypeInfo)
 	for id, e := range udt.Elements {
-		if len(data) == 0 {
-			return nil
-		}
-		if len(data) < 4 {
-			// UDT def does not match the column value
-			return unmarshalErrorf("can not unmarshal %s: field [%d]%s: unexpected eof", info, id, e.Name)
-		}
+		// a UDT value may carry fewer fields than its type (rows written before
+		// the type was altered): the remaining fields are null
+		absent := len(data) == 0
 
 		var p []byte
-		var rerr error
-		if p, data, rerr = readBytes(data); rerr != nil {
-			return rerr
+		if !absent {
+			if len(data) < 4 {
+				// UDT def does not match the column value
+				return unmarshalErrorf("can not unmarshal %s: field [%d]%s: unexpected eof", info, id, e.Name)
+			}
+
+			var rerr error
+			if p, data, rerr = readBytes(data); rerr != nil {
+				return rerr
+			}
 		}
 
 		f, ok := fields[e.Name]
@@ -2479,6 +2482,14 @@ func unmarshalUDT(info TypeInfo, data []byte, value interface{}) error {
 
 		if !f.IsValid() || !f.CanAddr() {
 			return unmarshalErrorf("cannot unmarshal %s into %T: field %v is not valid", info, value, e.Name)
+		}
+
+		if absent {
+			// do not keep what a reused destination held before
+			if f.CanSet() {
+				f.Set(reflect.Zero(f.Type()))
+			}
+			continue
 		}
 
 		fk := f.Addr().Interface()
